@@ -474,6 +474,109 @@ func vGuard(f func()) bool {
 	}
 }
 
+// vChurn: registry writers on goroutines of their own, running while the batch's connections are being classified - what a live
+// station's ingest workers (TrackRegistration, AddRegistration), other connections' MarkActive and the expiry sweeper
+// (RemoveOldRegistrations) do all the time.  They work on the world's "churn-*" sessions, which live on phantoms no case connects
+// to: the occupancy of every probed phantom stays what the world says.  Writes come in back-to-back bursts for the first fastFor
+// (while the peers are sending and every read ends in lookups), then sparsely until the batch ends.
+type vChurn struct {
+	ops, cycles, errs, maxOpUs int64
+	stop                       chan struct{}
+	wg                         sync.WaitGroup
+}
+
+func (w *vWorld) startChurn(writers int, fastFor time.Duration) *vChurn {
+	ch := &vChurn{stop: make(chan struct{})}
+	var specs []vRegSpec
+	for name, rs := range w.specs {
+		if strings.HasPrefix(name, "churn-") {
+			specs = append(specs, rs)
+		}
+	}
+	if len(specs) == 0 || writers <= 0 {
+		return ch
+	}
+	began := time.Now()
+	timed := func(f func()) {
+		t0 := time.Now()
+		f()
+		us := time.Since(t0).Microseconds()
+		for {
+			old := atomic.LoadInt64(&ch.maxOpUs)
+			if us <= old || atomic.CompareAndSwapInt64(&ch.maxOpUs, old, us) {
+				break
+			}
+		}
+		atomic.AddInt64(&ch.ops, 1)
+	}
+	for g := 0; g < writers; g++ {
+		g := g
+		ch.wg.Add(1)
+		go func() {
+			defer ch.wg.Done()
+			for i := g; ; i += writers {
+				select {
+				case <-ch.stop:
+					return
+				default:
+				}
+				rs := specs[i%len(specs)]
+				reg, err := w.buildReg(rs)
+				if err != nil {
+					atomic.AddInt64(&ch.errs, 1)
+					time.Sleep(time.Millisecond)
+					continue
+				}
+				timed(func() {
+					if err := w.rm.TrackRegistration(reg); err != nil {
+						atomic.AddInt64(&ch.errs, 1)
+					}
+				})
+				timed(func() { w.rm.AddRegistration(reg) })
+				timed(func() { w.rm.MarkActive(reg) })
+				timed(func() { cj.VerifBackdate(w.rm, reg, 7*time.Hour) })
+				timed(func() { w.rm.RemoveOldRegistrations() })
+				atomic.AddInt64(&ch.cycles, 1)
+				if time.Since(began) < fastFor {
+					time.Sleep(150 * time.Microsecond)
+				} else {
+					time.Sleep(15 * time.Millisecond)
+				}
+			}
+		}()
+	}
+	return ch
+}
+
+// finish stops the writers and asks the table a question: writers that do not come back and a table that does not answer are reported
+func (ch *vChurn) finish(w *vWorld) map[string]any {
+	close(ch.stop)
+	stopped := make(chan struct{})
+	go func() { ch.wg.Wait(); close(stopped) }()
+	writersBack := true
+	select {
+	case <-stopped:
+	case <-time.After(3 * time.Second):
+		writersBack = false
+	}
+	answered := make(chan struct{})
+	go func() {
+		defer close(answered)
+		for _, ip := range w.phantoms {
+			_ = w.rm.CountRegistrations(ip)
+			_ = w.rm.GetRegistrations(ip)
+		}
+	}()
+	blocked := false
+	select {
+	case <-answered:
+	case <-time.After(3 * time.Second):
+		blocked = true
+	}
+	return map[string]any{"kind": "churn", "ops": atomic.LoadInt64(&ch.ops), "cycles": atomic.LoadInt64(&ch.cycles), "errs": atomic.LoadInt64(&ch.errs),
+		"max_op_us": atomic.LoadInt64(&ch.maxOpUs), "writers_back": writersBack, "registry_blocked": blocked}
+}
+
 func vGarbage(gen string, n int, id string) []byte {
 	out := make([]byte, 0, n+64)
 	switch {
@@ -755,7 +858,7 @@ func (w *vWorld) runCase(cs *vCase) map[string]any {
 	}
 
 	fin := map[string]any{"matched": matched, "flight_len": flightLen, "c2s_written": d.c2sWritten, "client_err": clientErr, "to_peer": d.s2cTotal,
-		"unread": len(d.pending) + func() int {
+		"hung": hung, "unread": len(d.pending) + func() int {
 			n := 0
 			for _, s := range d.segs {
 				n += len(s)
@@ -880,6 +983,10 @@ func TestVerifClassify(t *testing.T) {
 				}
 			}()
 		}
+		var churn *vChurn
+		if n := vEnvInt("VERIF_CHURN", 0); n > 0 {
+			churn = w.startChurn(n, time.Duration(vEnvInt("VERIF_CHURN_FAST_MS", 3000))*time.Millisecond)
+		}
 		sem := make(chan struct{}, par)
 		var wg sync.WaitGroup
 		ended := map[string]chan struct{}{}
@@ -906,6 +1013,9 @@ func TestVerifClassify(t *testing.T) {
 		wg.Wait()
 		close(epochStop)
 		epochWG.Wait()
+		if churn != nil {
+			out.Emit(churn.finish(w))
+		}
 		// short application data shared by several cases: as many covert connections received exactly it as cases matched
 		for k := range shortWants {
 			w.emu.Lock()
